@@ -561,6 +561,114 @@ def rule_o12(ctx):
         raise AnalysisBroken("only %d uninitialised scalar locals found in the build" % n)
 
 
+# ---------------------------------------------------------------------------
+# O13: an element taken off an owning list is not dropped
+
+
+def rule_o13(ctx):
+    import re
+    r = ctx.rule("C03.O13", "T4", "an element taken off an owning list is not dropped: a list is owning when some function releases what it "
+                 "removes from it (the removed element reaches a *_fini / *_free / *_destroy function or nni_free); wherever an "
+                 "element is removed from such a list with nni_list_remove, every path to the function's exit -- or to the next "
+                 "assignment of the variable that names it -- hands it on (argument of a call, stored into an object, returned, "
+                 "linked again): reading a field of it and walking on loses the only reference, and the teardown that drains "
+                 "the list can no longer find it", floor=12)
+    prog = ctx.prog
+    READERS = ("nni_list_first", "nni_list_next", "nni_list_last", "nni_list_active", "nni_list_node_active", "nni_list_empty",
+               "nni_list_remove", "nni_list_node_remove")
+    fns = [f for f in prog.functions if not f.cfg_failed and not f.file.endswith("_test.c")]
+
+    def removals(f):
+        for c in f.calls("nni_list_remove"):
+            a = [f.expand(x) if x is not None else None for x in c.node["args"]]
+            if len(a) < 2 or a[0] is None or a[1] is None or a[1].get("k") != "var" or a[1].get("vk") != "local":
+                continue
+            if "aio" in ((f.locals().get(a[1]["n"]) or {}).get("t") or ""):
+                continue        # parked operations: C02.A5 / A7
+            lf = last_field(a[0])
+            if lf:
+                yield c, a[1]["n"], lf
+    own = set()
+    for f in fns:
+        for c, v, lf in removals(f):
+            after = f.reach((c.b, c.i + 1))
+            for k in f.calls():
+                fn_ = k.node.get("fn") or ""
+                if (k.b, k.i) in after and (re.search(r"(_fini|_free|_destroy)$", fn_) or fn_ == "nni_free") and any(
+                        x is not None and f.expand(x).get("k") == "var" and f.expand(x)["n"] == v for x in k.node["args"]):
+                    own.add(lf)
+    n = 0
+    for f in fns:
+        for c, v, lf in removals(f):
+            if lf not in own:
+                continue
+            n += 1
+            # other locals that are given the element's value (a temporary) name it too
+            names = {v}
+            for t in f.sites():
+                for m in walk(f.expand(t.node)):
+                    src = None
+                    if m.get("k") == "asg" and m["lhs"].get("k") == "var" and m.get("op") == "=":
+                        src, dst = m["rhs"], m["lhs"]["n"]
+                    elif m.get("k") == "decls":
+                        for d in m["d"]:
+                            if d.get("init") is not None:
+                                iv = f.expand(d["init"])
+                                while iv is not None and iv.get("k") == "cast":
+                                    iv = iv["e"]
+                                if iv is not None and iv.get("k") == "var" and iv["n"] == v:
+                                    names.add(d["n"])
+                    if src is not None:
+                        while src is not None and src.get("k") == "cast":
+                            src = src["e"]
+                        src = f.expand(src) if src is not None else None
+                        if src is not None and src.get("k") == "var" and src["n"] == v and dst != v:
+                            names.add(dst)
+
+            def handoff(b, i, e, v=v, names=names):
+                if e is None:
+                    return False
+                for m in walk(f.expand(e)):
+                    if m.get("k") == "call" and m.get("fn") not in READERS:
+                        for x in m["args"]:
+                            x = f.expand(x) if x is not None else None
+                            if x is not None and x.get("k") == "var" and x["n"] in names:
+                                return True
+                    if m.get("k") == "asg" and m["lhs"].get("k") != "var":
+                        rr = m["rhs"]
+                        while rr is not None and rr.get("k") == "cast":
+                            rr = rr["e"]
+                        rr = f.expand(rr) if rr is not None else None
+                        if rr is not None and rr.get("k") == "var" and rr["n"] == v:
+                            return True
+                    if m.get("k") == "ret" and m.get("e") is not None and any(
+                            y.get("k") == "var" and y["n"] == v for y in walk(f.expand(m["e"]))):
+                        return True
+                return False
+
+            def redefined(e, v=v):
+                return e is not None and any(m.get("k") == "asg" and m["lhs"].get("k") == "var" and m["lhs"]["n"] == v
+                                             for m in walk(f.expand(e)))
+            seen = f.reach((c.b, c.i + 1), blocked=handoff)
+            lost = None
+            if (f.exit, 0) in seen:
+                lost = "the function's exit"
+            else:
+                for (b, i) in sorted(seen):
+                    if i < len(f.blocks[b].elems) and redefined(f.blocks[b].elems[i]):
+                        lost = "line %s, where %s is assigned again" % (f.line_of(b, i), v)
+                        break
+            if lost:
+                ctx.fail(r, f, "%s dropped after removal from %s" % (v, lf), c.line,
+                         "%s takes %s off %s (line %s) and reaches %s on a path that has not handed it to anybody: elements of "
+                         "this list are released by whoever removes them, so this one is leaked" % (f.name, v, lf, c.line, lost))
+            else:
+                r.ob(f, "%s removed from %s at line %s is handed on along every path" % (v, lf, c.line))
+    if n < 12 or len(own) < 6:
+        raise AnalysisBroken("only %d removals from %d owning lists found" % (n, len(own)))
+    r.notes.append("owning lists: " + ", ".join(sorted(own)))
+
+
 def run(ctx):
     ctx.guard(rule_o1)
     ctx.guard(rule_o4)
@@ -570,6 +678,7 @@ def run(ctx):
     ctx.guard(rule_o3)
     ctx.guard(rule_o11)
     ctx.guard(rule_o12)
+    ctx.guard(rule_o13)
     from . import c18
     ctx.guard(c18.rule_r11)      # sized free of the msgq ring: the recorded extent belongs to the storage
     for rr in ctx.rules:
